@@ -124,6 +124,43 @@ func rsDeepObj(n int) []byte {
 	return b
 }
 
+// rsDeepArr nests n containers the same way: ECMA arrays (mix false), or objects, ECMA arrays and strict arrays in turn
+func rsDeepArr(n int, mix bool) []byte {
+	var b []byte
+	kinds := make([]int, n)
+	for i := 0; i < n; i++ {
+		k := 1
+		if mix {
+			k = i % 3
+		}
+		kinds[i] = k
+		switch k {
+		case 0: // object
+			b = append(b, 3)
+			if i != n-1 {
+				b = append(b, 0, 1, 'k')
+			}
+		case 1: // ECMA array, one entry
+			b = append(b, 8, 0, 0, 0, 1)
+			if i != n-1 {
+				b = append(b, 0, 1, 'k')
+			}
+		default: // strict array, one element
+			if i != n-1 {
+				b = append(b, 10, 0, 0, 0, 1)
+			} else {
+				b = append(b, 10, 0, 0, 0, 0)
+			}
+		}
+	}
+	for i := n - 1; i >= 0; i-- {
+		if kinds[i] != 2 {
+			b = append(b, 0, 0, 9)
+		}
+	}
+	return b
+}
+
 func rsConnectObj(withApp bool, oe float64) []byte { return rsConnectObjX(withApp, oe, 0) }
 
 func rsConnectObjX(withApp bool, oe float64, nest int) []byte {
@@ -205,6 +242,14 @@ func RsCommandPayload(name, shape, stream string) []byte {
 			return rsCat(nm, rsAmfNum(1), rsConnectObjX(true, 0, 3000))
 		case "deepok":
 			return rsCat(nm, rsAmfNum(1), rsConnectObjX(true, 0, 40))
+		case "deeparr", "deepmix":
+			// the command object holds 3000 nested ECMA arrays / containers of the three kinds in turn
+			o := append([]byte{3}, rsKey("x")...)
+			o = append(o, rsDeepArr(3000, shape == "deepmix")...)
+			o = append(o, rsKey("app")...)
+			o = append(o, rsAmfStr("live")...)
+			o = append(o, 0, 0, 9)
+			return rsCat(nm, rsAmfNum(1), o)
 		case "appnum", "appbool", "appobj", "tcnum", "oestr", "fvobj":
 			// a property of the command object with another AMF type than lal reads it with
 			val := map[string][]byte{"appnum": rsAmfNum(7), "appbool": {1, 1}, "appobj": {3, 0, 0, 9}, "tcnum": rsAmfNum(1935),
